@@ -19,6 +19,8 @@ import Fca.Lemmas.CodecConcept
 import Fca.Lemmas.CodecMV
 import Fca.Lemmas.CodecMVCxt
 import Fca.Lemmas.CodecPConcept
+import Fca.Lemmas.CodecHist
+import Fca.Lemmas.CodecFloatLit
 namespace Fca.C07
 open Fca Fca.Codec
 
@@ -158,6 +160,112 @@ theorem pattern_lattice_json_roundtrip (L : Lat PConcept) (hlen : 3 ≤ L.concep
       = .ok (.inr ⟨L.concepts.map PConcept.readBack, ch, L.top, L.bottom⟩) :=
   readPLat_writePLat L hlen hc hcod ch hre
 
+/-! ### extreme and degenerate interval descriptions (every border position) -/
+
+/-- every JSON float literal — a finite `repr` literal or `Infinity` / `-Infinity` — is a float already -/
+theorem jsonFloat_isFloatLit (l : Str) (h : IsJsonFloat l) : IsFloatLit l := by
+  unfold IsFloatLit floatLit
+  rcases h with h | rfl | rfl
+  · unfold finiteLitB at h
+    simp only [Bool.and_eq_true] at h
+    have hany := h.2
+    rw [if_pos]
+    rw [List.any_eq_true] at hany ⊢
+    obtain ⟨c, hc, hcc⟩ := hany
+    refine ⟨c, hc, ?_⟩
+    simp only [Bool.or_eq_true] at hcc ⊢
+    rcases hcc with (h1 | h1) | h1
+    · exact .inl (.inl (.inl (.inl h1)))
+    · exact .inl (.inl (.inl (.inr h1)))
+    · exact .inl (.inl (.inr h1))
+  · rfl
+  · rfl
+
+/-- `from_json(to_json((a, b))) = (a, b)` for BOTH interval classes and ANY two JSON float literals as borders —
+    finite or infinite on either side, proper, improper (`a > b`) or a point — on trees and on the texts produced
+    and parsed by the model's own `dumps` / `loads` (no codec hypothesis); `_transform_data` leaves it unchanged. -/
+theorem interval_value_roundtrip (t : PType) (ht : t.isInterval = true) (a b : Str)
+    (ha : IsJsonFloat a) (hb : IsJsonFloat b) :
+    (toJsonVal t (.interval a b)).bind (fromJsonVal t) = .ok (.interval a b) ∧
+    (toJsonText t (.interval a b)).bind (fun s => fromJsonText t (.str s)) = .ok (.interval a b) ∧
+    transformVal t (.interval a b) = .ok (.interval a b) := by
+  have hf : Fits t (.interval a b) := by
+    cases t <;> simp [PType.isInterval] at ht <;>
+      exact ⟨jsonFloat_isFloatLit a ha, jsonFloat_isFloatLit b hb⟩
+  have hcodec : ∀ j, toJsonVal t (.interval a b) = .ok j → loads (dumps j) = some j := by
+    intro j hj
+    have : j = .arr [.flt a, .flt b] := by
+      cases t <;> simp [PType.isInterval] at ht <;> (simp only [toJsonVal] at hj; cases hj; rfl)
+    rw [this]
+    exact loads_dumps_pair a b ha hb
+  exact pattern_value_roundtrip t (.interval a b) hf hcodec |>.imp id (fun h => ⟨h.1, h.2 (by simp)⟩)
+
+/-- every border of every interval cell of `K` is a JSON float literal -/
+def JsonFloatBorders (K : MVCxt) : Prop :=
+  ∀ c ∈ K.cols, ∀ a b, PVal.interval a b ∈ c.data → IsJsonFloat a ∧ IsJsonFloat b
+
+/-- the text layer is *proved* (not assumed) for the interval and attribute cells: with JSON float literals as
+    borders the cells' codec hypothesis only remains for the `SetPS` cells -/
+theorem mvCodecOk_of_borders (K : MVCxt) (h : MVOk K) (hb : JsonFloatBorders K)
+    (hsets : ∀ c ∈ K.cols, c.ptype = .SetPS → ∀ v ∈ c.data,
+      loads (dumps (valTree c.ptype v)) = some (valTree c.ptype v)) : MVCodecOk K := by
+  intro c hc v hv
+  have hfit := (h.fits c hc v hv).1
+  cases ht : c.ptype with
+  | SetPS => rw [← ht]; exact hsets c hc ht v hv
+  | AttributePS =>
+    rw [ht] at hfit
+    cases v <;> simp only [Fits] at hfit
+    rename_i b
+    cases b <;> rfl
+  | IntervalPS =>
+    rw [ht] at hfit
+    cases v <;> simp only [Fits] at hfit
+    · rename_i a b
+      exact loads_dumps_pair a b (hb c hc a b hv).1 (hb c hc a b hv).2
+    · rfl
+  | IntervalNumpyPS =>
+    rw [ht] at hfit
+    cases v <;> simp only [Fits] at hfit
+    · rename_i a b
+      exact loads_dumps_pair a b (hb c hc a b hv).1 (hb c hc a b hv).2
+    · rfl
+
+/-- `mv_json_roundtrip` with the codec hypothesis discharged for interval and attribute columns: a many-valued
+    context whose interval borders are JSON float literals (±infinity and the extreme finite values in any
+    position, improper and point intervals included) round-trips; only `SetPS` cells keep the hypothesis. -/
+theorem mv_json_roundtrip_extremes (K : MVCxt) (h : MVOk K) (hb : JsonFloatBorders K)
+    (hsets : ∀ c ∈ K.cols, c.ptype = .SetPS → ∀ v ∈ c.data,
+      loads (dumps (valTree c.ptype v)) = some (valTree c.ptype v)) :
+    (writeMVTree K).bind readMVTree = .ok K :=
+  (mv_json_roundtrip K h (mvCodecOk_of_borders K h hb hsets)).1
+
+/-! ### histories: a context written after any sequence of public mutations is read back as its CURRENT content -/
+
+/-- after any history of legal public mutations (`ps.data = col`, `ps.data[i] = v`, replacing a pattern structure,
+    `object_names = …`, `description = …`) the many-valued context that is written and read back is the context as
+    it is NOW: the writer depends on nothing but the current content. -/
+theorem mv_json_roundtrip_history (K : MVCxt) (steps : List MVStep) (h : MVOk K) (hs : MVStepsOk K steps)
+    (hcod : MVCodecOk (K.run steps)) :
+    (writeMVTree (K.run steps)).bind readMVTree = .ok (K.run steps) :=
+  (mv_json_roundtrip (K.run steps) (mvok_run steps K h hs) hcod).1
+
+/-- the same for formal contexts and every format: after any history of `object_names = …`,
+    `attribute_names = …`, `data.data = rows` (same shape), `description = …` the json and pandas round trips
+    give the current context, and so do cxt and csv whenever the CURRENT names are admissible for the format. -/
+theorem context_roundtrip_history (K : Cxt) (steps : List CxtStep) (hwf : K.WF) (hn : K.rows ≠ [])
+    (hs : CxtStepsOk K steps) :
+    readJsonTree (writeJsonTree (K.run steps)) = .ok (K.run steps) ∧
+    fromPandas (toPandas (K.run steps)) = .ok { K.run steps with descr := none } ∧
+    (NonEmpty (K.run steps) → AdmissibleCxt (K.run steps) →
+      readCxt (writeCxt (K.run steps)) = .ok { K.run steps with descr := none }) ∧
+    (∀ sep wt wf, NonEmpty (K.run steps) → AdmissibleCsvSep (K.run steps) sep wt wf →
+      csvViaFile (K.run steps) sep wt wf = .ok { K.run steps with descr := none }) := by
+  have hw := cxt_run_wf steps K hwf hn hs
+  exact ⟨json_roundtrip _ hw.1 hw.2, pandas_roundtrip _ hw.1 hw.2,
+    fun hne hadm => cxt_roundtrip _ hw.1 hne hadm,
+    fun sep wt wf hne hadm => csv_roundtrip_multichar _ sep wt wf hw.1 hne hadm⟩
+
 /-! ### non-vacuity: the hypotheses are met by concrete, non-trivial inputs -/
 
 private def exK : Cxt :=
@@ -249,5 +357,55 @@ example : PCodecOk exPC := by
   · intro kv hkv
     simp only [exPC, List.mem_cons, List.not_mem_nil, or_false] at hkv
     rcases hkv with rfl | rfl | rfl <;> rfl
+
+/-- infinite borders in every position, improper and point intervals, signed zero, the largest and the smallest
+    positive double -/
+private def exMVext : MVCxt :=
+  { objs := ["g1".toList, "g2".toList, "g3".toList, "g4".toList], attrs := ["lo".toList, "np".toList],
+    cols := [⟨"lo".toList, .IntervalPS,
+               [.interval "Infinity".toList "Infinity".toList, .interval "-Infinity".toList "-Infinity".toList,
+                .interval "Infinity".toList "-Infinity".toList, .interval "-0.0".toList "1.7976931348623157e+308".toList]⟩,
+             ⟨"np".toList, .IntervalNumpyPS,
+               [.interval "-Infinity".toList "Infinity".toList, .interval "Infinity".toList "3.0".toList,
+                .interval "5e-324".toList "-Infinity".toList, .interval "1e+16".toList "1e-07".toList]⟩],
+    descr := none }
+
+example : MVOk exMVext := ⟨by decide, by decide, by decide, by decide, by decide, by decide⟩
+
+example : JsonFloatBorders exMVext := by
+  intro c hc a b hv
+  simp only [exMVext, List.mem_cons, List.not_mem_nil, or_false] at hc
+  rcases hc with rfl | rfl <;>
+    (simp only [List.mem_cons, List.not_mem_nil, or_false, PVal.interval.injEq] at hv
+     rcases hv with ⟨rfl, rfl⟩ | ⟨rfl, rfl⟩ | ⟨rfl, rfl⟩ | ⟨rfl, rfl⟩ <;> exact ⟨by decide, by decide⟩)
+
+example : (writeMVTree exMVext).bind readMVTree = .ok exMVext := by rfl
+
+/-- text level (the model's own `dumps` / `loads`) on one improper infinite cell -/
+example : (toJsonText .IntervalPS (.interval "Infinity".toList "-Infinity".toList)).bind
+    (fun s => fromJsonText .IntervalPS (.str s)) = .ok (.interval "Infinity".toList "-Infinity".toList) := by rfl
+
+example : IsJsonFloat "Infinity".toList ∧ IsJsonFloat "-Infinity".toList ∧ IsJsonFloat "-0.0".toList ∧
+    IsJsonFloat "1.7976931348623157e+308".toList ∧ IsJsonFloat "5e-324".toList ∧ IsJsonFloat "1e-07".toList ∧
+    ¬ IsJsonFloat "NaN".toList ∧ ¬ IsJsonFloat "1".toList := by decide
+
+/-- a history: replace a column, then a cell, rename the objects, drop the description -/
+example : MVStepsOk exMV [.setCol 0 [.interval "Infinity".toList "-Infinity".toList, .interval "0.5".toList "0.5".toList],
+    .setCell 1 1 (.set [.str "null".toList]), .setObjs ["a".toList, "b".toList], .setDescr none] := by
+  refine ⟨?_, ?_, ?_, trivial, trivial⟩
+  · intro c hc
+    simp only [exMV, List.getElem?_cons_zero, Option.some.injEq] at hc
+    subst hc
+    exact ⟨rfl, by decide⟩
+  · intro c hc
+    simp only [MVCxt.step, exMV, modCol, List.getElem?_cons_succ, List.getElem?_cons_zero, Option.some.injEq] at hc
+    subst hc
+    exact ⟨by decide, by decide⟩
+  · rfl
+
+example : CxtStepsOk exK [.setObjs ["x".toList, "y".toList], .setRows [[false, false, true], [true, true, true]],
+    .setAttrs ["null".toList, "true".toList, "∅".toList], .setDescr (some "d".toList)] := by
+  refine ⟨rfl, ?_, rfl, trivial, trivial⟩
+  exact ⟨rfl, by decide⟩
 
 end Fca.C07
